@@ -43,9 +43,18 @@ type c08scenario struct {
 	announce []int   // per sender: announcement made after this many messages (-1: never)
 	arrival  [][2]int // (sender, index) in arrival order
 	regOrder []int   // senders in registration order (those with an announcement)
+	// script, when set: arrivals and registrations are ONE thread doing these actions in this order
+	// ({0, sender, index}: the entry arrives; {1, sender, 0}: RegisterChainKey; {2, sender, 0}:
+	// ProcessMessageQueueForDevicePK), so that an arrival can be placed inside the window between
+	// the registration of a key and the flush of the parked messages; arrival and regOrder list the
+	// same actions per kind
+	script [][3]int
 }
 
 func (s c08scenario) String() string {
+	if s.script != nil {
+		return fmt.Sprintf("msgs=%v announce-after=%v script(0 arrive,1 register,2 flush)=%v", s.msgs, s.announce, s.script)
+	}
 	return fmt.Sprintf("msgs=%v announce-after=%v arrival=%v registrations=%v", s.msgs, s.announce, s.arrival, s.regOrder)
 }
 
@@ -204,6 +213,33 @@ func c08setup(t *testing.T, sc c08scenario, out *c08obs) func(c *vsched.Ctl) fun
 			t.Fatal(err)
 		}
 
+		c.Spawn("consumer", func() string {
+			ms.processMessageLoop(ctx, tracer)
+			return ""
+		})
+		if sc.script != nil {
+			c.Spawn("driver", func() string {
+				for _, a := range sc.script {
+					switch a[0] {
+					case 0:
+						m := w.find(a[1], a[2])
+						vsched.Yield("call", nil, "arrive")
+						if err := ms.addToMessageQueue(ctx, m.entry); err != nil {
+							return "error: " + err.Error()
+						}
+					case 1:
+						vsched.Yield("call", nil, "register")
+						if err := w.recv.RegisterChainKey(ctx, w.g, w.devPK[a[1]], w.enc[a[1]]); err != nil {
+							return "error: " + err.Error()
+						}
+					case 2:
+						vsched.Yield("call", nil, "flush")
+						ms.ProcessMessageQueueForDevicePK(ctx, w.devRaw[a[1]])
+					}
+				}
+				return ""
+			})
+		} else {
 		c.Spawn("arrival", func() string {
 			for _, a := range sc.arrival {
 				m := w.find(a[0], a[1])
@@ -212,10 +248,6 @@ func c08setup(t *testing.T, sc c08scenario, out *c08obs) func(c *vsched.Ctl) fun
 					return "error: " + err.Error()
 				}
 			}
-			return ""
-		})
-		c.Spawn("consumer", func() string {
-			ms.processMessageLoop(ctx, tracer)
 			return ""
 		})
 		c.Spawn("registrar", func() string {
@@ -228,18 +260,32 @@ func c08setup(t *testing.T, sc c08scenario, out *c08obs) func(c *vsched.Ctl) fun
 			}
 			return ""
 		})
+		}
 
 		return func(r *vsched.Run) {
 			// the schedule in terms of model steps
 			code := map[string]uint64{"arrival": 0, "consumer": 1, "registrar": 2}
 			prev := map[string]vsched.Status{}
 			wasBlocked := false
+			driverMode := uint64(0)
 			for i, th := range r.Sched {
 				passed := "start"
 				if p, ok := prev[th]; ok {
 					passed = p.Label
 				}
 				emit := passed != "start" && !strings.HasSuffix(passed, ":start")
+				if th == "driver" {
+					// a step of the driver is a step of the model's arrival thread or of its registrar
+					switch passed {
+					case "arrive":
+						driverMode = 0
+					case "register":
+						driverMode = 2
+					case "flush":
+						driverMode, emit = 2, false // entering the flush is no step of its own
+					}
+					code["driver"] = driverMode
+				}
 				var consNow vsched.Status
 				for _, st := range r.Obs[i] {
 					prev[st.Name] = st
@@ -367,11 +413,25 @@ func (sc c08scenario) coq(t *testing.T, w *c08world) (arr, regs string) {
 	return vharness.List(as), vharness.List(rs)
 }
 
+// c08script builds a scripted scenario (one sender per index of msgs).
+func c08script(msgs, announce []int, script [][3]int) c08scenario {
+	sc := c08scenario{msgs: msgs, announce: announce, script: script}
+	for _, a := range script {
+		switch a[0] {
+		case 0:
+			sc.arrival = append(sc.arrival, [2]int{a[1], a[2]})
+		case 1:
+			sc.regOrder = append(sc.regOrder, a[1])
+		}
+	}
+	return sc
+}
+
 func TestVerifC08(t *testing.T) {
 	out := vharness.Open()
 	defer out.Close()
 	rng := vharness.Rng()
-	order := map[string]int{"consumer": 0, "arrival": 1, "registrar": 2}
+	order := map[string]int{"consumer": 0, "arrival": 1, "registrar": 2, "driver": 1}
 
 	emit := func(kind string, sc c08scenario, o *c08obs, sched []string) {
 		// counters and ids are the same in every run of a scenario (fresh stores, same order of sealing)
@@ -425,6 +485,51 @@ func TestVerifC08(t *testing.T) {
 			emit("exhaustive", sc, o, r.Sched)
 		})
 		t.Logf("scenario %v: %d schedules, exhausted=%v", sc, n, exhausted)
+	}
+
+	// scripted scenarios: arrivals placed around and INSIDE the window between RegisterChainKey and
+	// the flush of the parked messages; two threads only (driver, consumer), a few schedules each,
+	// the first one being "the consumer handles every entry as soon as it is queued"
+	scripted := []c08scenario{
+		// decryptable messages parked, key registered, an undecryptable message of the same device
+		// arrives and is handled, then the flush
+		c08script([]int{3}, []int{1}, [][3]int{{0, 0, 1}, {0, 0, 2}, {1, 0, 0}, {0, 0, 0}, {2, 0, 0}}),
+		c08script([]int{3}, []int{1}, [][3]int{{0, 0, 1}, {1, 0, 0}, {0, 0, 0}, {0, 0, 2}, {2, 0, 0}}),
+		c08script([]int{2}, []int{0}, [][3]int{{0, 0, 1}, {1, 0, 0}, {0, 0, 0}, {2, 0, 0}}),
+		c08script([]int{3}, []int{2}, [][3]int{{0, 0, 2}, {1, 0, 0}, {0, 0, 1}, {0, 0, 0}, {2, 0, 0}}),
+	}
+	nscript := vharness.Budget(40, 1500)
+	if vharness.Budget(1, 1) == 0 {
+		nscript = 2
+	}
+	for i := 0; i < nscript; i++ {
+		n := 1 + rng.Intn(3)
+		a := rng.Intn(n + 1)
+		var acts [][3]int
+		for k := 0; k < n; k++ {
+			acts = append(acts, [3]int{0, 0, k})
+		}
+		rng.Shuffle(len(acts), func(x, y int) { acts[x], acts[y] = acts[y], acts[x] })
+		// register at a random position, flush at a random later position
+		pr := rng.Intn(len(acts) + 1)
+		acts = append(acts[:pr], append([][3]int{{1, 0, 0}}, acts[pr:]...)...)
+		pf := pr + 1 + rng.Intn(len(acts)-pr)
+		acts = append(acts[:pf], append([][3]int{{2, 0, 0}}, acts[pf:]...)...)
+		scripted = append(scripted, c08script([]int{n}, []int{a}, acts))
+	}
+	perScript := vharness.Budget(4, 40)
+	for _, sc := range scripted {
+		sc := sc
+		var o *c08obs
+		vsched.Explore(func(c *vsched.Ctl) func(r *vsched.Run) {
+			o = &c08obs{}
+			return c08setup(t, sc, o)(c)
+		}, order, 400, perScript, func(r vsched.Run) {
+			if r.Err != "" {
+				o.note, o.deadlock = "harness: "+r.Err, false
+			}
+			emit("scripted", sc, o, r.Sched)
+		})
 	}
 
 	// random schedules on larger scenarios
